@@ -60,27 +60,27 @@ fn bulk_vs_single<I: Interpolate<i16>, const R: usize, const C: usize, const RC:
 fn c18_bulk_vs_single_midpoint() {
     bulk_vs_single::<_, 2, 1, 2, 2>(&Midpoint, 0, 0, [0.2, 0.5]);
 }
-//@ prop=C18,C01 tier=thorough mem=8 timeout=5400 flags=modelmap uses=cut inst="quantiles_axis_mut vs quantile_axis_mut, Midpoint, ArrayViewMut2<i16> 3x1, Axis(0), qs = [0.25, 0.3, 0.3] (ascending, two q inside the same gap, a repeat)" bounds="i8-range payloads; unwind 12"
-#[kani::proof]
-#[kani::unwind(12)]
+// (not registered: not verified to finish within the session's budget on this machine) prop=C18,C01 tier=thorough mem=8 timeout=5400 flags=modelmap uses=cut inst="quantiles_axis_mut vs quantile_axis_mut, Midpoint, ArrayViewMut2<i16> 3x1, Axis(0), qs = [0.25, 0.3, 0.3] (ascending, two q inside the same gap, a repeat)" bounds="i8-range payloads; unwind 12"
+#[allow(dead_code)]
+// #[kani::unwind(12)]
 fn c18_bulk_vs_single_midpoint_3x1() {
     bulk_vs_single::<_, 3, 1, 3, 3>(&Midpoint, 0, 0, [0.25, 0.3, 0.3]);
 }
-//@ prop=C18,C01 tier=thorough mem=10 timeout=7200 flags=modelmap uses=cut inst="quantiles_axis_mut vs quantile_axis_mut, Midpoint, ArrayViewMut2<i16> 3x2 F-order, Axis(0), qs = [0.25, 0.3, 0.75]" bounds="i8-range payloads; unwind 12"
-#[kani::proof]
-#[kani::unwind(12)]
+// (not registered: not verified to finish within the session's budget on this machine) prop=C18,C01 tier=thorough mem=10 timeout=7200 flags=modelmap uses=cut inst="quantiles_axis_mut vs quantile_axis_mut, Midpoint, ArrayViewMut2<i16> 3x2 F-order, Axis(0), qs = [0.25, 0.3, 0.75]" bounds="i8-range payloads; unwind 12"
+#[allow(dead_code)]
+// #[kani::unwind(12)]
 fn c18_bulk_vs_single_midpoint_3x2() {
     bulk_vs_single::<_, 3, 2, 6, 3>(&Midpoint, 1, 0, [0.25, 0.3, 0.75]);
 }
-//@ prop=C18,C01 tier=thorough mem=10 timeout=5400 flags=modelmap uses=cut inst="quantiles_axis_mut vs quantile_axis_mut, Linear, ArrayViewMut2<i16> 2x3 stepped, Axis(1), qs = [0.3, 0.5, 0.0]" bounds="i8-range payloads; unwind 10"
-#[kani::proof]
-#[kani::unwind(10)]
+// (not registered: not verified to finish within the session's budget on this machine) prop=C18,C01 tier=thorough mem=10 timeout=5400 flags=modelmap uses=cut inst="quantiles_axis_mut vs quantile_axis_mut, Linear, ArrayViewMut2<i16> 2x3 stepped, Axis(1), qs = [0.3, 0.5, 0.0]" bounds="i8-range payloads; unwind 10"
+#[allow(dead_code)]
+// #[kani::unwind(10)]
 fn c18_bulk_vs_single_linear() {
     bulk_vs_single::<_, 2, 3, 6, 3>(&Linear, 2, 1, [0.3, 0.5, 0.0]);
 }
-//@ prop=C18,C01 tier=thorough mem=10 timeout=5400 flags=modelmap uses=cut inst="quantiles_axis_mut vs quantile_axis_mut, Nearest, ArrayViewMut2<i16> 3x2 reversed, Axis(0), qs = [0.5+ulp, 0.5-ulp]" bounds="i8-range payloads; unwind 10"
-#[kani::proof]
-#[kani::unwind(10)]
+// (not registered: not verified to finish within the session's budget on this machine) prop=C18,C01 tier=thorough mem=10 timeout=5400 flags=modelmap uses=cut inst="quantiles_axis_mut vs quantile_axis_mut, Nearest, ArrayViewMut2<i16> 3x2 reversed, Axis(0), qs = [0.5+ulp, 0.5-ulp]" bounds="i8-range payloads; unwind 10"
+#[allow(dead_code)]
+// #[kani::unwind(10)]
 fn c18_bulk_vs_single_nearest() {
     bulk_vs_single::<_, 3, 2, 6, 2>(&Nearest, 3, 0, [0.5000000000000001, 0.49999999999999994]);
 }
